@@ -288,6 +288,16 @@ func cmdDriveCosmetic(args []string) error {
 		for i := 0; i < 400; i++ {
 			wide = append(wide, fmt.Sprintf("wide%03d.example", i))
 		}
+		// rules whose permitted domain is itself a public suffix (private or ICANN): they apply to every site under it
+		for _, l := range []string{"blogspot.com##.suffix-rule", "co.uk,~shop.co.uk##.suffix-rule-2", "github.io#@#.generic-never", "lan##.suffix-rule-3"} {
+			if r, err := rules.NewRule(l, 1); err == nil {
+				if cr, ok := r.(*rules.CosmeticRule); ok && cr != nil {
+					cos = append(cos, cr)
+					texts = append(texts, l)
+				}
+			}
+		}
+		domains = append(domains, "myblog.blogspot.com", "blogspot.com", "news.co.uk", "x.shop.co.uk", "user.github.io", "printer.lan")
 		long := []string{strings.Join(wide, ",") + "##.wide-banner", "! " + strings.Repeat("long comment ", 400),
 			strings.Join(wide[100:380], ",") + "#@#.wide-banner", "wide001.example,~sub.wide001.example##.after-long-lines"}
 		for _, l := range long {
@@ -325,13 +335,19 @@ func cmdDriveCosmetic(args []string) error {
 				host = d[k+1:]
 			}
 		}
-		if forced := []string{"wide000.example", "wide001.example", "sub.wide001.example", "wide099.example", "www.wide100.example", "wide250.example",
-			"wide380.example", "wide399.example"}; i < len(forced) {
+		forced := []string{"wide000.example", "wide001.example", "sub.wide001.example", "wide099.example", "www.wide100.example", "wide250.example",
+			"wide380.example", "wide399.example", "myblog.blogspot.com", "a.b.blogspot.com", "news.co.uk", "x.shop.co.uk", "user.github.io", "printer.lan"}
+		if i < len(forced) {
 			host = forced[i]
 		}
 		flags := rnd.Intn(4)
-		if i < 8 {
+		if i < len(forced) {
 			flags = 0
+		} else if i < len(forced)+16 {
+			// the same two hosts with every flag combination in a row, the unrestricted one last: one engine answers them
+			// all, an answer must not depend on what was asked before
+			host = []string{"wide001.example", "myblog.blogspot.com"}[(i-len(forced))/8]
+			flags = 3 - (i-len(forced))%4
 		}
 		ev := cosEvent{Host: host, CSS: flags&1 == 0, GCSS: flags&2 == 0, Applicable: []cosApplicable{}, Generic: []string{}, Specific: []string{}}
 		for _, cr := range cos {
